@@ -280,6 +280,47 @@ func c07body(c *xplore.Ctx) (text string, form string, fs []ev.Finding, skipped 
 				Detail: fmt.Sprintf("fresh parser: %v / %v; parser that was first given %v and then the real bindings: %v / %v", q1, err1, decoy, q3, err3), Case: cs, Rank: rank}}, false
 		}
 	}
+	// the bindings hold for every statement the parser reads, not only the first: the same text as the second and third
+	// statement of a query, and read statement by statement from one parser
+	{
+		var q4 *influxql.Query
+		var err4 error
+		var third influxql.Statement
+		var err5 error
+		if p, st := try(func() {
+			ps := influxql.NewParser(strings.NewReader("SHOW DATABASES; " + text + "; " + text))
+			ps.SetParams(params)
+			q4, err4 = ps.ParseQuery()
+			ps = influxql.NewParser(strings.NewReader("SHOW DATABASES; " + text))
+			ps.SetParams(params)
+			if _, err5 = ps.ParseStatement(); err5 == nil {
+				if tok, _, _ := ps.ScanIgnoreWhitespace(); tok == influxql.SEMICOLON {
+					third, err5 = ps.ParseStatement()
+				} else {
+					err5 = fmt.Errorf("no semicolon after the first statement")
+				}
+			}
+		}); p != nil {
+			return wit, spec.Form, []ev.Finding{{Sig: "panic:parse-with-params-in-later-statement:" + ev.SigSafe(pos), Witness: wit, Detail: fmt.Sprint(p) + "\n" + st, Case: cs, Rank: rank}}, false
+		}
+		if err1 == nil && len(q1.Statements) == 1 {
+			bad := ""
+			switch {
+			case err4 != nil:
+				bad = fmt.Sprintf("as second and third statement of a query: %v", err4)
+			case len(q4.Statements) != 3 || !astx.Equal(astx.Denoted, q1.Statements[0], q4.Statements[1]) || !astx.Equal(astx.Denoted, q1.Statements[0], q4.Statements[2]):
+				bad = fmt.Sprintf("as second and third statement of a query it parses to %v", q4)
+			case err5 != nil:
+				bad = fmt.Sprintf("as the second ParseStatement call on one parser: %v", err5)
+			case !astx.Equal(astx.Denoted, q1.Statements[0], third):
+				bad = fmt.Sprintf("as the second ParseStatement call on one parser it parses to %v", third)
+			}
+			if bad != "" {
+				return wit, spec.Form, []ev.Finding{{Sig: "bindings-lost-after-first-statement:" + ev.SigSafe(pos), Witness: wit,
+					Detail: "alone the statement parses to " + q1.String() + "; " + bad, Case: cs, Rank: rank}}, false
+			}
+		}
+	}
 	if !bindable {
 		if err1 == nil {
 			return wit, spec.Form, []ev.Finding{{Sig: "unbindable-parameter-accepted:" + ev.SigSafe(pos), Witness: wit, Detail: "parse succeeded: " + q1.String(), Case: cs, Rank: rank}}, false
